@@ -147,6 +147,19 @@ func verifSameMapping(db *DB, kp *vPool, m *vModel, id string) {
 	})
 	verifAssert(err == nil, id+".fold-err")
 	verifAssert(ok && i == len(exp), id+".fold-shape")
+	// a callback that returns false stops the walk at once (and releases whatever Fold holds: the histories go on
+	// writing afterwards, a leaked lock would show as a deadlock)
+	calls := 0
+	err = db.Fold(func(k, v []byte) bool {
+		calls++
+		return false
+	})
+	verifAssert(err == nil, id+".fold-early-stop-err")
+	if len(exp) > 0 {
+		verifAssert(calls == 1, id+".fold-early-stop-ignored")
+	} else {
+		verifAssert(calls == 0, id+".fold-on-empty-called-back")
+	}
 	verifAssert(db.Stat().KeyNum == len(exp), id+".stat-keynum")
 }
 
